@@ -165,10 +165,21 @@ class GenObj:
 
 
 class SInt:
-    __slots__ = ("term",)
+    __slots__ = ("term", "bounds")
 
-    def __init__(self, term):
+    def __init__(self, term, bounds=None):
         self.term = term
+        self.bounds = bounds      # optional (lo, hi) known concretely (set by the RNG stub)
+
+
+class SFloatTab:
+    """the product of a small-range symbolic int and a concrete float: a table
+    (int value -> exact float result computed natively); only int() is supported"""
+    __slots__ = ("term", "table")
+
+    def __init__(self, term, table):
+        self.term = term
+        self.table = table
 
     def __repr__(self):
         return f"SInt({self.term})"
@@ -336,6 +347,7 @@ class Interp:
         self.resolved = {}
         self.uid_counter = 10 ** 9
         self.rng_log = []
+        self.rng_replay = None
         self.hash_apps = []
         for o, kind, val in self._snap:
             if kind == "ns":
@@ -1114,6 +1126,28 @@ class Interp:
                     out.append(p)
                 return I.str_concat(out)
             return NativeFunc(join, "str.join")
+        if isinstance(v, SStr) and name in ("rstrip", "lstrip", "strip"):
+            def strip(it, a, k):
+                chars = a[0] if a else " \t\n\r\x0b\x0c"
+                if not isinstance(chars, str):
+                    raise Unsupported("strip with symbolic chars")
+                if chars == "":
+                    return v
+                cs = z3.Union(*[z3.Re(c) for c in chars]) if len(chars) > 1 else z3.Re(chars)
+                cur = v.term
+                # s = left ++ core ++ right, left/right in [chars]*, core does not start / end with a char
+                if name in ("lstrip", "strip"):
+                    left, core = I.ctx.fresh_str("lstrip_l"), I.ctx.fresh_str("lstrip_c")
+                    I.ctx.assume(z3.And(cur == z3.Concat(left, core), z3.InRe(left, z3.Star(cs)),
+                                        z3.And(*[z3.Not(z3.PrefixOf(z3.StringVal(c), core)) for c in chars])))
+                    cur = core
+                if name in ("rstrip", "strip"):
+                    core, right = I.ctx.fresh_str("rstrip_c"), I.ctx.fresh_str("rstrip_r")
+                    I.ctx.assume(z3.And(cur == z3.Concat(core, right), z3.InRe(right, z3.Star(cs)),
+                                        z3.And(*[z3.Not(z3.SuffixOf(z3.StringVal(c), core)) for c in chars])))
+                    cur = core
+                return SStr(cur)
+            return NativeFunc(strip, f"str.{name}")
         if isinstance(v, SStr):
             raise Unsupported(f"symbolic str.{name}")
         m = getattr(v, name, None)
@@ -1926,7 +1960,20 @@ class Interp:
         return self.binop(e.op, self.eval(e.left, fr), self.eval(e.right, fr))
 
     def binop(self, op, a, b):
+        if isinstance(op, ast.Mult) and isinstance(a, SInt) and isinstance(b, float) and a.bounds is not None \
+                and a.bounds[1] - a.bounds[0] <= 64:
+            return SFloatTab(a.term, [(v, v * b) for v in range(a.bounds[0], a.bounds[1] + 1)])
+        if isinstance(op, ast.Mult) and isinstance(b, SInt) and isinstance(a, float) and b.bounds is not None \
+                and b.bounds[1] - b.bounds[0] <= 64:
+            return SFloatTab(b.term, [(v, a * v) for v in range(b.bounds[0], b.bounds[1] + 1)])
+        for x, y, nm in ((a, b, "__mul__"), (b, a, "__rmul__")):
+            if isinstance(op, ast.Mult) and isinstance(x, Obj):
+                f = self.class_lookup(x.cls, nm)
+                if isinstance(f, FuncObj):
+                    return self.call(f, [x, y], {})
         if isinstance(a, (SInt,)) or isinstance(b, (SInt,)):
+            if isinstance(a, float) or isinstance(b, float):
+                raise Unsupported("symbolic int (unbounded) times float")
             ta, tb = self.int_term(a), self.int_term(b)
             if isinstance(op, ast.Add):
                 return self.wrapi(ta + tb)
@@ -2148,6 +2195,15 @@ class Interp:
                 return v
             if isinstance(v, SBool):
                 return I.wrapi(z3.If(v.term, 1, 0))
+            if isinstance(v, SFloatTab):
+                t = z3.IntVal(int(v.table[-1][1]))
+                for val, fl in reversed(v.table[:-1]):
+                    t = z3.If(v.term == val, z3.IntVal(int(fl)), t)
+                return I.wrapi(z3.simplify(t))
+            if isinstance(v, Obj):
+                f = I.class_lookup(v.cls, "__int__")
+                if isinstance(f, FuncObj):
+                    return I.call(f, [v], {})
             raise Unsupported(f"int({v!r})")
         B["int"].native_ctor = int_ctor
 
@@ -2677,16 +2733,24 @@ def _int_to_sstr(self, v):
 Interp.int_to_sstr = _int_to_sstr
 
 
-# ---- random: every answer of the generator is a fresh symbolic value within its contract
+# ---- random: every answer of the generator is a fresh symbolic value within its contract.
+# Interp.rng_log records the answers (z3 terms) in call order; with Interp.rng_replay set
+# (a list of earlier answers) the stub returns those instead (same RNG stream again).
 def _mod_random(I):
     def randint(it, a, k):
         lo, hi = a
         if I.truth(I.cmp(ast.Gt(), lo, hi)):
             I.raise_("ValueError", "empty range for randrange()")
-        r = I.ctx.fresh_int("randint")
-        I.ctx.assume(z3.And(r >= I.int_term(lo), r <= I.int_term(hi)))
+        rp = getattr(I, "rng_replay", None)
+        if rp:
+            kind, r = rp.pop(0)
+            assert kind == "randint"
+        else:
+            r = I.ctx.fresh_int("randint")
+            I.ctx.assume(z3.And(r >= I.int_term(lo), r <= I.int_term(hi)))
         I.rng_log.append(("randint", r))
-        return I.wrapi(z3.simplify(r)) if False else SInt(r)
+        b = (lo, hi) if isinstance(lo, int) and isinstance(hi, int) else None
+        return SInt(r, b)
 
     def sample(it, a, k):
         pop = I.resolve(a[0])
@@ -2697,30 +2761,29 @@ def _mod_random(I):
         bad = I.or_(I.cmp(ast.Lt(), kk, 0), I.cmp(ast.Gt(), kk, n))
         if I.truth(bad):
             I.raise_("ValueError", "Sample larger than population or is negative")
-        # concretise k (forks), then choose k pairwise distinct positions
-        kc = None
-        if isinstance(kk, SInt):
-            for c in range(n + 1):
-                if c == n or I.ctx.decide(kk.term == c):
-                    kc = c
-                    break
+        rp = getattr(I, "rng_replay", None)
+        if rp:
+            kind, idx = rp.pop(0)
+            assert kind == "sample"
         else:
-            kc = kk
-        idx = []
+            # n pairwise distinct positions; the first k of them are the sample
+            idx = []
+            for j in range(n):
+                t = I.ctx.fresh_int("sample")
+                I.ctx.assume(z3.And(t >= 0, t < n))
+                for u in idx:
+                    I.ctx.assume(t != u)
+                idx.append(t)
         out = []
-        for j in range(kc):
-            t = I.ctx.fresh_int("sample")
-            I.ctx.assume(z3.And(t >= 0, t < n))
-            for u in idx:
-                I.ctx.assume(t != u)
-            idx.append(t)
-            # element = pop[t]
+        for t in idx:
             el = pop.elems[n - 1]
             for p in range(n - 2, -1, -1):
                 el = I.ite(I.wrapb(t == p), pop.elems[p], el)
             out.append(el)
-        I.rng_log.append(("sample", list(idx)))
-        return PList(I, out)
+        I.rng_log.append(("sample", list(idx), kk))
+        if isinstance(kk, SInt):
+            return PList(I, out, sym_n=kk.term)
+        return PList(I, out[:kk])
 
     def seed(it, a, k):
         return None
